@@ -124,22 +124,36 @@ func noDiscovery(set []kmip.ProtocolVersion) c13server {
 
 // c13Cell runs one configuration: dial + one follow-up request. Returns adopted version (nil if dial failed) and the
 // header version the server saw on the follow-up request.
-func c13Cell(client []kmip.ProtocolVersion, enforce *kmip.ProtocolVersion, srv c13server) (adopted *kmip.ProtocolVersion, seen *kmip.ProtocolVersion, dialErr error, panicked any) {
+func c13Cell(cluster bool, client []kmip.ProtocolVersion, enforce *kmip.ProtocolVersion, srv c13server) (adopted, seen, seenClone *kmip.ProtocolVersion, dialErr error, panicked any) {
 	opts := []kmipclient.Option{kmipclient.WithKmipVersions(client...)}
 	if enforce != nil {
 		opts = append(opts, kmipclient.EnforceVersion(*enforce))
 	}
-	return c13Dial(opts, srv)
+	return c13DialVia(cluster, opts, srv)
 }
 
 // c13Dial: one DialContext with the given options against srv, plus one follow-up request.
 func c13Dial(cfg []kmipclient.Option, srv c13server) (adopted *kmip.ProtocolVersion, seen *kmip.ProtocolVersion, dialErr error, panicked any) {
+	adopted, seen, _, dialErr, panicked = c13DialVia(false, cfg, srv)
+	return
+}
+
+// c13DialVia connects through DialContext or DialClusterContext, sends one follow-up request, then clones the client
+// (a clone inherits the negotiated version without negotiating) and sends one request through the clone. seen / seenClone
+// are the header versions the server saw on those two requests.
+func c13DialVia(cluster bool, cfg []kmipclient.Option, srv c13server) (adopted, seen, seenClone *kmip.ProtocolVersion, dialErr error, panicked any) {
 	var mu sync.Mutex
-	done := make(chan struct{})
+	var wg sync.WaitGroup
+	var conns []net.Conn
+	var acts []kmip.ProtocolVersion
 	dialer := func(ctx context.Context) (net.Conn, error) {
 		a, b := net.Pipe()
+		mu.Lock()
+		conns = append(conns, a)
+		mu.Unlock()
+		wg.Add(1)
 		go func() {
-			defer close(done)
+			defer wg.Done()
 			st := ttlv.NewStream(b, 0)
 			for {
 				var req kmip.RequestMessage
@@ -149,8 +163,7 @@ func c13Dial(cfg []kmipclient.Option, srv c13server) (adopted *kmip.ProtocolVers
 				}
 				if _, ok := req.BatchItem[0].RequestPayload.(*payloads.ActivateRequestPayload); ok {
 					mu.Lock()
-					v := req.Header.ProtocolVersion
-					seen = &v
+					acts = append(acts, req.Header.ProtocolVersion)
 					mu.Unlock()
 				}
 				if err := st.Send(srv.handle(&req)); err != nil {
@@ -166,20 +179,45 @@ func c13Dial(cfg []kmipclient.Option, srv c13server) (adopted *kmip.ProtocolVers
 		if r := recover(); r != nil {
 			panicked = r
 		}
+		mu.Lock()
+		for _, c := range conns {
+			_ = c.Close()
+		}
+		mu.Unlock()
+		wg.Wait()
 	}()
-	cl, err := kmipclient.DialContext(context.Background(), "pipe", opts...)
+	var cl *kmipclient.Client
+	var err error
+	if cluster {
+		cl, err = kmipclient.DialClusterContext(context.Background(), []string{"pipe-a", "pipe-b"}, opts...)
+	} else {
+		cl, err = kmipclient.DialContext(context.Background(), "pipe", opts...)
+	}
 	if err != nil {
-		<-done
-		return nil, nil, err, nil
+		return nil, nil, nil, err, nil
 	}
 	v := cl.Version()
 	adopted = &v
 	_, _ = cl.Request(context.Background(), &payloads.ActivateRequestPayload{UniqueIdentifier: "x"})
-	_ = cl.Close()
-	<-done
 	mu.Lock()
-	defer mu.Unlock()
-	return adopted, seen, nil, nil
+	if len(acts) > 0 {
+		s := acts[len(acts)-1]
+		seen = &s
+	}
+	n := len(acts)
+	mu.Unlock()
+	if cl2, cerr := cl.Clone(); cerr == nil {
+		_, _ = cl2.Request(context.Background(), &payloads.ActivateRequestPayload{UniqueIdentifier: "y"})
+		mu.Lock()
+		if len(acts) > n {
+			s := acts[len(acts)-1]
+			seenClone = &s
+		}
+		mu.Unlock()
+		_ = cl2.Close()
+	}
+	_ = cl.Close()
+	return adopted, seen, seenClone, nil, nil
 }
 
 func maxCommon(a, b []kmip.ProtocolVersion) *kmip.ProtocolVersion {
@@ -196,7 +234,7 @@ func maxCommon(a, b []kmip.ProtocolVersion) *kmip.ProtocolVersion {
 func runC13(c *vlib.Check) {
 	c.Rule = "exhaustive product of configurations: 31 non-empty client subsets of {1.0..1.4} x 32 server subsets x server behaviours {real BatchExecutor with default versions, real executor after " +
 		"SetSupportedProtocolVersions, discovery unsupported, scripted server listing descending / ascending / every permutation (sets <=3) / versions the client did not offer / empty list} x " +
-		"{not enforced, enforced (5 values)}; each cell = one DialContext + one follow-up request over an in-process pipe; reference = max(client ∩ server); option histories (one Option value reused across two Dials) and server histories (every ordered pair of client sets negotiating one after the other with one real executor, 8 server configurations). distinct = distinct cells"
+		"{not enforced, enforced (5 values)}; each cell = one DialContext, and one DialClusterContext, + one follow-up request + one request through a Clone of the client, over in-process pipes; reference = max(client ∩ server); option histories (one Option value reused across two Dials) and server histories (every ordered pair of client sets negotiating one after the other with one real executor, 8 server configurations). distinct = distinct cells"
 	c.Assumptions = []string{"the quantifier is over configurations, not schedules: each cell is a single deterministic exchange",
 		"when a real executor restricted to a set without 1.1 rejects the (1.1-framed) discovery request for its version, a failed connection is accepted; a wrong adopted version is not"}
 	type cell struct {
@@ -244,10 +282,14 @@ func runC13(c *vlib.Check) {
 			cells = append(cells, cell{client: cl, enforce: &e, srv: func() c13server { return scripted("enforced", allVersions, allVersions, true) }, desc: "enforced"})
 		}
 	}
-	vlib.Parallel(len(cells), 0, func(i int) {
+	vlib.Parallel(2*len(cells), 0, func(i2 int) {
+		i, cluster := i2/2, i2%2 == 1
 		k := cells[i]
 		srv := k.srv()
 		label := fmt.Sprintf("client=%s server=%s behaviour=%s", vstr(k.client), vstr(srv.versions), k.desc)
+		if cluster {
+			label = "DialClusterContext " + label
+		}
 		if k.enforce != nil {
 			label += fmt.Sprintf(" enforce=%d.%d", k.enforce.ProtocolVersionMajor, k.enforce.ProtocolVersionMinor)
 		}
@@ -256,10 +298,17 @@ func runC13(c *vlib.Check) {
 			c.Sample(label)
 		}
 		rep := map[string]any{"kind": "negotiation-cell", "cell": label}
-		adopted, seen, derr, pv := c13Cell(k.client, k.enforce, srv)
+		adopted, seen, seenClone, derr, pv := c13Cell(cluster, k.client, k.enforce, srv)
 		if pv != nil {
-			c.Violation("panic:"+k.desc, fmt.Sprintf("dial panicked: %v — %s", pv, label), rep)
+			sig := "panic:" + k.desc
+			if cluster {
+				sig = "panic:DialClusterContext"
+			}
+			c.Violation(sig, fmt.Sprintf("dial panicked: %v — %s", pv, label), rep)
 			return
+		}
+		if derr == nil && adopted != nil && (seenClone == nil || *seenClone != *adopted) {
+			c.Violation("clone-header-version", fmt.Sprintf("a clone of the client sent its request with version %v, the client had adopted %v — %s", seenClone, *adopted, label), rep)
 		}
 		if k.enforce != nil {
 			if derr != nil || adopted == nil || *adopted != *k.enforce {
